@@ -13,7 +13,7 @@ P = {
          "Every top-level presence subset and every nested presence combination of every parameter-bearing command is enumerated in all 8 feature configurations; values are sampled. A swapped / renumbered / dropped / altered member is visible because every member carries a distinct generated value."),
  "C02": ("exploration", "model-based differential: responses built through the public API from a reference-CBOR description, serialised by the crate, parsed by an independent strict parser and compared order-insensitively with the description (proptest; presence subsets enumerated)",
          "All presence subsets where 2^k <= 4096, none/singletons/pairs/full otherwise, both attestation shapes, all four COSE key kinds, all 8 configurations; values sampled."),
- "C03": ("exploration", "validity predicate over generated outputs: an independent CTAP2 canonical-CBOR validator applied to every response body, every stand-alone serialisable type (all member pairs), the authenticator-data extension tail and integers at every head-width threshold (proptest + enumeration)",
+ "C03": ("exploration", "validity predicate over generated outputs: an independent CTAP2 canonical-CBOR validator applied to every response body (serialised into fresh, reused and pre-filled buffers), every stand-alone serialisable type (all member pairs), the authenticator-data extension tail and integers at every head-width threshold (proptest + enumeration)",
          "Key order is settled for all member pairs of every map type in every configuration (pairs suffice: emission order is declaration order); head widths at all thresholds; values sampled."),
  "C04": ("exploration", "exhaustive enumeration of short inputs + structure-aware mutation fuzzing with in-target oracles (no panic/abort, status set, determinism); libFuzzer+ASan target as second engine in the thorough tier",
          "Absence of panics is established for all inputs of length <= 3 (and 4-byte inputs of parameter-bearing commands in the thorough tier); beyond that it is search. Non-termination is only seen as a watchdog hit (exit 2)."),
@@ -43,7 +43,7 @@ P = {
          "Sampled corpus (same in every configuration by construction); a feature that renumbers/renames/reorders a common member changes some transcript line or some member probe."),
  "C17": ("exploration", "capacity-frontier enumeration: Response::serialize::<N> instantiated for ~580 capacities; body tuned so that N - M in -2..+2; three prior buffer states; oracle = complete message iff it fits else [0x7f]",
          "Every kind x every presence prefix x every instantiated capacity; contents sampled. Capacities are const generics, so the list is fixed at build time."),
- "C18": ("exploration", "exhaustive table enumeration: every spelling and its complete one-edit neighbourhood against every string enumeration; all 256 byte values, head-width thresholds and negatives against every numeric enumeration; full status/permission/variant tables",
+ "C18": ("exploration", "exhaustive table enumeration: every spelling and its complete one-edit neighbourhood against every string enumeration; all 256 byte values, head-width thresholds and negatives against every numeric enumeration (the U2F control byte also as P1 of the authenticate APDU); full status/permission/variant tables",
          "Complete over the enumerated neighbourhoods; random strings/numbers in addition."),
  "C19": ("exploration", "generator fuzzing with validity walker: byte patterns (all single-byte repeats x length ladder) and proptest mixes of well- and ill-formed UTF-8 fed to the three Arbitrary impls; every public field validated, value cloned/compared/formatted/dispatched",
          "Sampled; UB that neither from_utf8 on the raw bytes nor a debug assertion exposes needs the Miri run of the thorough tier."),
